@@ -9,6 +9,8 @@
 (*       goal[s]         1 iff s is absorbing (goals keep "ghost" out-edges: nothing    *)
 (*                       may depend on them), start                                     *)
 (*       hc[s]           a custom heuristic (cost-to-go estimate) in HALF units          *)
+(*       cbase, cbig     0, or B > 0: the real costs are (c div B) * cbig + (c mod B)    *)
+(*                       with cbig a huge integer (2^53 .. 10^30) - see InstanceWellFormed *)
 (*       cfgs            the configurations to explore: alg in {astar,bfs},             *)
 (*                       tie in {lifo,fifo,random}, rnd in {0,1} (randomize_action_     *)
 (*                       order), hk in {zero,exact,half,custom,relaxed}                 *)
@@ -385,7 +387,12 @@ SupersededOnlyAmongInfiniteTies ==
 \* instance filters
 InstanceWellFormed == phase = "oracle" =>
   /\ G.start \in Nodes(G)
-  /\ \A s \in Nodes(G) : \A a \in 1..G.K : G.nxt[s][a] \in Nodes(G) /\ G.cost[s][a] >= 0 /\ G.cost[s][a] < 1000
+  /\ \A s \in Nodes(G) : \A a \in 1..G.K : G.nxt[s][a] \in Nodes(G) /\ G.cost[s][a] >= 0 /\ G.cost[s][a] < 100000
+  \* huge integer costs (beyond 2^53, far beyond TLC's integers) are modelled structurally: with
+  \* cbase = B > 0 the instance stands for the real problem with costs (c div B) * M + (c mod B), M = cbig.
+  \* That embedding is additive and order preserving on all sums a search can form (at most N edges plus
+  \* a heuristic that is itself such a sum) when the residues cannot carry into the next digit:
+  /\ G.cbase > 0 => \A s \in Nodes(G) : \A a \in 1..G.K : (G.cost[s][a] % G.cbase) * 2 * G.N < G.cbase
 HeuristicsConsistent == phase = "oracle" => \A k \in {"zero", "exact", "half", "custom", "relaxed"} : Consistent(G, orc.hz[k])
 \* A*: a state is visited with its optimal cost from the start (consistent heuristic).  States with an
 \* infinite heuristic cannot reach a goal; they all tie on f = inf and are visited in tie-break order.
